@@ -71,6 +71,12 @@ let parse_op (t : string array) : op option =
   | "append" -> Some (OAppend (reg 1, bytes_of_hex t.(2)))
   | "write" -> Some (OWrite (reg 1, bytes_of_hex t.(2)))
   | "writeall" -> Some (OWriteAll (reg 1, bytes_of_hex t.(2)))
+  (* io::Write::write_vectored, std's provided method: "calls write with either the first nonempty buffer provided, or an
+     empty one if none exists" *)
+  | "writev" ->
+      let bufs = List.map bytes_of_hex (List.tl (List.tl (Array.to_list t))) in
+      let first = match List.filter (fun b -> b <> []) bufs with b :: _ -> b | [] -> [] in
+      Some (OWrite (reg 1, first))
   | "iocopy" -> Some (OIoCopy (reg 1, bytes_of_hex t.(2)))
   | "hwrite" -> Some (OHWrite (reg 1, bytes_of_hex t.(2)))
   (* core::hash::Hasher::write_<int>(v): std's provided methods are  self.write(&v.to_ne_bytes());  the script carries
